@@ -13,7 +13,9 @@ import (
 	"sync"
 	"time"
 
+	"golang.org/x/text/language"
 	"seehuhn.de/go/pdf"
+	"seehuhn.de/go/xmp"
 	"verif/sim/gen"
 	"verif/sim/simdisk"
 	"verif/sim/simio"
@@ -29,6 +31,7 @@ type Restrict struct {
 	MaxOps      int
 	MaxBody     int
 	NoWriterGet bool
+	NoMetadata  bool
 	SmallValues bool // keep objects small (used by enumeration checks)
 }
 
@@ -40,6 +43,7 @@ type Config struct {
 	UserPW  string
 	OwnerPW string
 	GiveID  int // 0: none, 1: one element, 2: two
+	Meta    int // document-level XMP metadata: 0 none, 1 ordinary, 2 plaintext
 }
 
 func (c Config) String() string {
@@ -47,7 +51,7 @@ func (c Config) String() string {
 	if c.UserPW != "" || c.OwnerPW != "" {
 		enc = fmt.Sprintf("user=%q owner=%q", c.UserPW, c.OwnerPW)
 	}
-	return fmt.Sprintf("v%s human=%v sink=%s enc=%s id=%d", c.Version, c.Human, c.Sink, enc, c.GiveID)
+	return fmt.Sprintf("v%s human=%v sink=%s enc=%s id=%d meta=%d", c.Version, c.Human, c.Sink, enc, c.GiveID, c.Meta)
 }
 
 // Encrypted reports whether the configuration asks for encryption.
@@ -89,6 +93,24 @@ type Result struct {
 	Probes    map[string]int
 }
 
+// MetaTitle is the Dublin Core title of the document-level XMP metadata.
+const MetaTitle = "verif metadata title"
+
+// MetadataTitle extracts the title from a metadata stream ("" if absent).
+func MetadataTitle(m *pdf.MetadataStream) string {
+	if m == nil || m.Data == nil {
+		return ""
+	}
+	var dc xmp.DublinCore
+	if err := m.Data.Get(&dc); err != nil {
+		return "error: " + err.Error()
+	}
+	if dc.Title.IsZero() {
+		return "no title"
+	}
+	return dc.Title.Best(language.Und)
+}
+
 var passwords = []string{"", "secret", "a", "pässwörd", "0123456789012345678901234567890123456789", "ünï", "x y"}
 
 var versions = []pdf.Version{pdf.V1_7, pdf.V1_0, pdf.V1_1, pdf.V1_2, pdf.V1_3, pdf.V1_4, pdf.V1_5, pdf.V1_6, pdf.V2_0}
@@ -116,6 +138,12 @@ func DrawConfig(t *tape.Tape, r *Restrict) Config {
 	}
 	if c.Version >= pdf.V1_1 {
 		c.GiveID = t.Weighted("cfg.id", 3, 1, 2)
+	}
+	if c.Version >= pdf.V1_4 && !r.NoMetadata {
+		c.Meta = t.Weighted("cfg.meta", 4, 1, 1)
+		if c.Meta == 2 && c.Encrypted() && c.Version < pdf.V1_6 {
+			c.Meta = 1 // plaintext metadata in an encrypted file needs 1.6
+		}
 	}
 	return c
 }
@@ -218,6 +246,14 @@ func (x *exec) run(sink io.Writer) {
 		opt.ID = [][]byte{[]byte("0123456789abcdef")}
 	case 2:
 		opt.ID = [][]byte{[]byte("0123456789abcdef"), []byte("fedcba9876543210\x00\xff")}
+	}
+	if cfg.Meta > 0 {
+		packet := xmp.NewPacket()
+		dc := &xmp.DublinCore{}
+		dc.Title.Set(language.Und, MetaTitle)
+		if err := packet.Set(dc); err == nil {
+			opt.DocumentMetadata = &pdf.MetadataStream{Data: packet, Plaintext: cfg.Meta == 2}
+		}
 	}
 	w, err := pdf.NewWriter(sink, cfg.Version, opt)
 	if x.fail("NewWriter", err) {
